@@ -145,3 +145,826 @@ def translate(ctx=None):
     if ctx is not None:
         ctx.extra['translated'] = {name: dict(expr=expr, zero_eps=str(eps)) for name, _, _, expr, eps in items}
     return items
+
+
+# ---------------------------------------------------------------------------
+# helpers
+# ---------------------------------------------------------------------------
+def ints(a):
+    return ';'.join(str(int(x)) for x in np.asarray(a).reshape(-1))
+
+
+def nat_lists(rows):
+    return '|'.join(';'.join(str(int(x)) for x in r) for r in rows)
+
+
+def fbits(x):
+    return str(int(np.array(float(x), dtype=np.float64).view(np.uint64)))
+
+
+def frac(s):
+    p, q = s.split('/')
+    return Fraction(int(p), int(q))
+
+
+def guarded(f):
+    try:
+        return f()
+    except AssertionError:
+        return 'error:assert'
+    except (ValueError, TypeError, IndexError, KeyError) as e:
+        return 'error:' + type(e).__name__
+
+
+class patched:
+    """temporarily replace attributes (restored on exit)"""
+    def __init__(self, *triples):
+        self.triples = triples
+        self.old = []
+
+    def __enter__(self):
+        for obj, name, new in self.triples:
+            self.old.append((obj, name, getattr(obj, name)))
+            setattr(obj, name, new)
+        return self
+
+    def __exit__(self, *a):
+        for obj, name, old in reversed(self.old):
+            setattr(obj, name, old)
+        return False
+
+
+def sorted_patterns(r):
+    """all sorted tuples of length r over 0..m-1 using every value (compositions of r), plus shifted/gapped variants"""
+    out = []
+    for cuts in itertools.product([0, 1], repeat=r - 1):
+        t = [0]
+        for c in cuts:
+            t.append(t[-1] + c)
+        out.append(tuple(t))
+    return out
+
+
+def all_patterns(r):
+    """all tuples of length r whose set of values is {0..m-1} (set partitions with labelled blocks in order of value)"""
+    seen = []
+    for t in itertools.product(range(r), repeat=r):
+        if set(t) == set(range(len(set(t)))):
+            seen.append(t)
+    return seen
+
+
+# ---------------------------------------------------------------------------
+# correspondence
+# ---------------------------------------------------------------------------
+def _table_str(index, value):
+    return '|'.join(';'.join(str(int(x)) for x in row) + ':' + str(int(v)) for row, v in zip(index, value))
+
+
+def tie_tables(ctx):
+    from numqi.matrix_space import _hierarchy as H
+    ops, impl = [], []
+    rmax = 4 if ctx.quick() else 5
+    for r in range(1, rmax + 1):
+        ops.append(f'C20 aftint {r}')
+        impl.append(guarded(lambda: _table_str(*H.permutation_with_antisymmetric_factor(r))))
+        for t in all_patterns(r):
+            for shift in ((0, 1), (0, 1), (3, 2))[:1 if r == rmax else 3]:
+                tt = tuple(shift[0] + shift[1] * x for x in t)
+                ops.append('C20 aft ' + ';'.join(map(str, tt)))
+                impl.append(guarded(lambda: _table_str(*H.permutation_with_antisymmetric_factor(tt))))
+    for r in (6,) if ctx.quick() else (6, 7):
+        for _ in range(6):
+            tt = tuple(sorted(ctx.rng.randrange(3) for _ in range(r)))
+            ops.append('C20 aft ' + ';'.join(map(str, tt)))
+            impl.append(guarded(lambda: _table_str(*H.permutation_with_antisymmetric_factor(tt))))
+    for d in range(0, 7):
+        for r in range(1, 6):
+            if d >= 1 or True:
+                ops.append(f'C20 asidx {d} {r}')
+                impl.append(guarded(lambda: nat_lists(np.asarray(H.get_antisymmetric_basis_index(d, r)[2]).T.reshape(-1, r))) if d >= 0 else '')
+            if d >= 1 and r <= 4:
+                ops.append(f'C20 symidx {d} {r}')
+                impl.append(guarded(lambda: nat_lists(np.asarray(H.get_symmetric_basis_index(d, r)[2]).T.reshape(-1, r))))
+    # get_antisymmetric_basis_index with a tuple argument: the index table only depends on the length
+    for tt in [(0, 0), (0, 1, 1), (2, 2, 2), (0, 1, 1, 2)]:
+        for d in (3, 5):
+            ops.append(f'C20 asidx {d} {len(tt)}')
+            impl.append(guarded(lambda: nat_lists(np.asarray(H.get_antisymmetric_basis_index(d, tt)[2]).T.reshape(-1, len(tt)))))
+    # pvalue of the symmetric index: pvalue*len(pindex) = sqrt(r!/prod(count!))
+    for d, r in [(2, 2), (3, 2), (3, 3), (2, 4), (4, 3)]:
+        pindex, pvalue, index = H.get_symmetric_basis_index(d, r)
+        for col, pv in zip(index.T, pvalue):
+            ops.append('C20 symcnt ' + ';'.join(str(int(x)) for x in col))
+            q = math.factorial(r) / (pv * len(pindex)) ** 2
+            impl.append(str(int(round(q))) if abs(q - round(q)) < 1e-9 else 'nonintegral')
+    for l in ([0], [0, 1], [2, 5, 7], [0, 1, 2, 3], [1, 3, 4, 6, 9]):
+        ops.append('C20 perms ' + ';'.join(map(str, l)))
+        impl.append(nat_lists(list(itertools.permutations(l))))
+    model = common.run_model(ops)
+    common.compare(ctx, ops, impl, model)
+    ctx.extra['exhaustive'] = True
+    ctx.extra['exhaustive_domain'] = f'permutation_with_antisymmetric_factor on every tuple pattern of length <= {rmax}; basis index tables dims 0..6, r 1..5'
+
+
+def tie_projection(ctx):
+    """tensor2d_project_to_antisym_basis on integer matrices, times r!, against the model's exact integers"""
+    from numqi.matrix_space import _hierarchy as H
+    rng = np.random.default_rng(ctx.np_seed)
+    ops, impl = [], []
+    rmax = 3 if ctx.quick() else 4
+    for r in range(1, rmax + 1):
+        for pat in sorted_patterns(r):
+            for dA, dB in ([(r, r), (r + 1, r), (r + 1, r + 2)] if r < 4 else [(4, 4), (5, 4)]):
+                N = max(pat) + 1 + int(rng.integers(0, 2))
+                mats = rng.integers(-3, 4, size=(N, dA, dB))
+                # relabel the pattern into a random increasing subset of range(N)
+                lab = sorted(rng.choice(N, size=max(pat) + 1, replace=False).tolist())
+                idx = [lab[p] for p in pat]
+                ops.append(f'C20 proj {dA} {dB} {";".join(map(str, idx))} {ints(mats)}')
+
+                def f():
+                    out = H.tensor2d_project_to_antisym_basis([x.astype(np.float64) for x in mats], idx) * math.factorial(r)
+                    out = np.asarray(out).reshape(-1)
+                    rr = np.round(out)
+                    if np.abs(out - rr).max(initial=0) > 1e-9 * max(1.0, np.abs(out).max(initial=0)):
+                        return 'nonintegral:' + repr(out.tolist())
+                    return ints(rr)
+                impl.append(guarded(f))
+    # INDEX=None (all distinct) and unsorted INDEX
+    for r, dA, dB, idx in [(2, 3, 3, None), (3, 3, 4, None), (2, 2, 3, [1, 0]), (3, 3, 3, [2, 0, 1]), (3, 4, 3, [1, 0, 1])]:
+        N = r if idx is None else max(idx) + 1
+        mats = rng.integers(-3, 4, size=(N, dA, dB))
+        jdx = list(range(r)) if idx is None else idx
+        ops.append(f'C20 proj {dA} {dB} {";".join(map(str, jdx))} {ints(mats)}')
+        impl.append(guarded(lambda: ints(np.round(H.tensor2d_project_to_antisym_basis([x.astype(np.float64) for x in mats], idx) * math.factorial(r)))))
+    # the call sequence of has_rank_hierarchical_method: which sub-tuples are antisymmetrised, in order
+    for N, rank, k, dA, dB in ([(2, 2, 1, 2, 2), (3, 2, 2, 2, 3), (2, 3, 1, 3, 3), (2, 2, 3, 2, 2), (3, 3, 2, 3, 3)] if ctx.quick()
+                               else [(2, 2, 1, 2, 2), (3, 2, 2, 2, 3), (2, 3, 1, 3, 3), (2, 2, 3, 2, 2), (3, 3, 2, 3, 3), (4, 2, 2, 3, 3), (2, 4, 1, 4, 4), (3, 3, 3, 3, 3)]):
+        calls = []
+        orig = H.tensor2d_project_to_antisym_basis
+
+        def rec(np_list, INDEX=None):
+            calls.append([int(x) for x in INDEX])
+            return orig(np_list, INDEX)
+        q = np.linalg.qr(rng.normal(size=(dA * dB, N)))[0].T.reshape(N, dA, dB)
+        with patched((H, 'tensor2d_project_to_antisym_basis', rec)):
+            res = guarded(lambda: H.has_rank_hierarchical_method(q, rank, hierarchy_k=k, return_info=True))
+        ops.append(f'C20 hidx {N} {rank} {k}')
+        if isinstance(res, str):
+            impl.append(res)
+        else:
+            impl.append(nat_lists(calls))
+            # number of vectors = number of multi-indices
+            n_vec = res[1].shape[0]
+            if n_vec != math.comb(N + rank - 1 + k - 1, rank - 1 + k):
+                ctx.disagree(f'C20 hidx-count {N} {rank} {k}', str(math.comb(N + rank - 1 + k - 1, rank - 1 + k)), str(n_vec))
+    model = common.run_model(ops)
+    common.compare(ctx, ops, impl, model)
+
+
+def _struct_inputs(rng, cls, n1, n2, N0):
+    """integer generators of a structure class (field, array)"""
+    def sym(a):
+        return a + a.transpose(0, 2, 1)
+    if cls == 'R_T':
+        return 'real', sym(rng.integers(-3, 4, size=(N0, n1, n1))).astype(np.float64)
+    if cls == 'C_T(real)':
+        return 'complex', sym(rng.integers(-3, 4, size=(N0, n1, n1))).astype(np.float64)
+    if cls == 'R':
+        return 'real', rng.integers(-3, 4, size=(N0, n1, n2)).astype(np.float64)
+    if cls == 'C(real)':
+        return 'complex', rng.integers(-3, 4, size=(N0, n1, n2)).astype(np.float64)
+    z = rng.integers(-3, 4, size=(N0, n1, n2)) + 1j * rng.integers(-3, 4, size=(N0, n1, n2))
+    zs = rng.integers(-3, 4, size=(N0, n1, n1)) + 1j * rng.integers(-3, 4, size=(N0, n1, n1))
+    if cls == 'C_H':
+        return 'real', zs + zs.transpose(0, 2, 1).conj()
+    if cls == 'R_cT':
+        return 'real', zs + zs.transpose(0, 2, 1)
+    if cls == 'R_c':
+        return 'real', z
+    if cls == 'C_T':
+        return 'complex', zs + zs.transpose(0, 2, 1)
+    if cls == 'C':
+        return 'complex', z
+    raise KeyError(cls)
+
+
+def _flags(np0, field):
+    sq = np0.shape[1] == np0.shape[2]
+    return [int(np.iscomplexobj(np0)), int(field == 'real'),
+            int(sq and np.array_equal(np0, np0.transpose(0, 2, 1))),
+            int(sq and np.array_equal(np0, -np0.transpose(0, 2, 1))),
+            int(sq and np.array_equal(np0, np0.transpose(0, 2, 1).conj()))]
+
+
+def tie_structure(ctx):
+    """get_matrix_orthogonal_basis: branch selection and every index shuffle, with svd/eigh helpers replaced by
+    integer-valued stand-ins so that the shuffles are compared exactly"""
+    import numqi
+    from numqi.matrix_space import _misc as M
+    from numqi.gellmann import matrix_to_gellmann_basis as m2g, gellmann_basis_to_matrix as g2m
+    rng = np.random.default_rng(ctx.np_seed + 1)
+    dims = [1, 2, 3, 4] if ctx.quick() else [1, 2, 3, 4, 5, 6]
+    classes = ['R_T', 'C_T(real)', 'R', 'C(real)', 'C_H', 'R_cT', 'R_c', 'C_T', 'C']
+    for cls in classes:
+        for n1 in dims:
+            for n2 in (dims if cls in ('R', 'C(real)', 'R_c', 'C') else [n1]):
+                if n1 == 1 and (n2 == 1 or cls in ('R_T', 'C_T(real)', 'C_H', 'R_cT', 'C_T')):
+                    continue  # 1x1 input is symmetric and `np.abs(aA).max()` raises on the empty block: outside the property's range (dims 2..5)
+                N0 = int(rng.integers(1, 4))
+                field, np0 = _struct_inputs(rng, cls, n1, n2, N0)
+                cap = []
+                state = {}
+
+                def fake_reduce(x, zero_eps=1e-10):
+                    cap.append(np.array(x))
+                    L = x.shape[1]
+                    kb = int(rng.integers(1, 3))
+                    dt = x.dtype
+                    fb = rng.integers(-3, 4, size=(kb, L)).astype(np.float64)
+                    if np.iscomplexobj(x):
+                        fb = fb + 1j * rng.integers(-3, 4, size=(kb, L))
+                    state['fb'] = fb
+                    return fb
+
+                def fake_orth(x, tag_reduce=True, zero_eps=1e-10):
+                    L = x.shape[1]
+                    ko = int(rng.integers(0, 3))
+                    fo = rng.integers(-3, 4, size=(ko, L)).astype(np.float64)
+                    if np.iscomplexobj(x):
+                        fo = fo + 1j * rng.integers(-3, 4, size=(ko, L))
+                    state['fo'] = fo
+                    return fo
+                with patched((M, 'reduce_vector_space', fake_reduce), (M, 'get_vector_orthogonal_basis', fake_orth)):
+                    res = guarded(lambda: M.get_matrix_orthogonal_basis(np0, field))
+                fl = _flags(np0, field)
+                op = 'C20 classify ' + ' '.join(map(str, fl))
+                mo = common.run_model([op])[0]
+                ctx.count('classify')
+                if isinstance(res, str):
+                    (ctx.agree if mo == res else (lambda *_: ctx.disagree(op, mo, res)))(op, op)
+                    continue
+                b, bo, ch = res
+                if mo != ch:
+                    ctx.disagree(op, mo, ch); continue
+                ctx.agree(op, (op, n1, n2))
+                ctx.count('class-' + ch)
+                X = cap[0]
+                mcl = common.run_model([f'C20 coordlen {ch} {n1} {n2}'])[0]
+                if mcl != str(X.shape[1]):
+                    ctx.disagree(f'C20 coordlen {ch} {n1} {n2}', mcl, str(X.shape[1]))
+                else:
+                    ctx.agree('coordlen', ('coordlen', ch, n1, n2))
+                _tie_shuffles(ctx, ch, n1, n2, np0, X, state['fb'], state['fo'], b, bo, m2g, g2m)
+    # the real anti-symmetric branch raises
+    for n in (2, 3):
+        a = rng.integers(-3, 4, size=(2, n, n)); a = (a - a.transpose(0, 2, 1)).astype(np.float64)
+        if not a.any():
+            continue
+        res = guarded(lambda: M.get_matrix_orthogonal_basis(a, 'real'))
+        op = 'C20 classify ' + ' '.join(map(str, _flags(a, 'real')))
+        mo = common.run_model([op])[0]
+        ctx.count('classify')
+        if (res if isinstance(res, str) else res[2]) == mo:
+            ctx.agree(op, op)
+        else:
+            ctx.disagree(op, mo, res if isinstance(res, str) else res[2])
+    # complement size for a rank-k reduced basis: EVC[:, N0:]
+    ops, impl = [], []
+    for L in range(1, 7):
+        for k in range(1, L + 1):   # k = 0 (empty basis) is rejected by the orthonormality assert
+            q = np.linalg.qr(rng.normal(size=(L, L)))[0][:k]
+            ops.append(f'C20 compl {L} {k}')
+            impl.append(guarded(lambda: str(M.get_vector_orthogonal_basis(q, tag_reduce=False).shape[0])))
+    model = common.run_model(ops)
+    common.compare(ctx, ops, impl, model)
+
+
+def _model_ints(op):
+    return [int(x) for x in common.run_model([op])[0].split(';')] if True else None
+
+
+def _tie_shuffles(ctx, ch, n1, n2, np0, X, fb, fo, b, bo, m2g, g2m):
+    """compare the captured coordinate matrix X and the returned arrays with the model's shuffles.
+    Position probing: the model is run on index codes, the resulting positions are applied to the float arrays,
+    so that the comparison is bit-for-bit although Gell-Mann coefficients are irrational."""
+    key = ('shuffle', ch, n1, n2)
+
+    def check(tag, ok, what_model, what_impl):
+        ctx.count('shuffle-' + tag)
+        if ok:
+            ctx.agree(tag, key + (tag,))
+        else:
+            ctx.disagree(f'C20 shuffle {tag} {ch} {n1} {n2}', what_model, what_impl)
+    if ch in ('R', 'C'):
+        check('reshape-in', np.array_equal(X, np0.reshape(np0.shape[0], -1)), 'row-major reshape', 'differs')
+        check('reshape-out', np.array_equal(b, fb.reshape(-1, n1, n2)) and np.array_equal(bo, fo.reshape(-1, n1, n2)), 'row-major reshape', 'differs')
+        return
+    if ch == 'C_H':
+        check('ch-in', np.array_equal(X, m2g(np0).real), 'gellmann coords (real part)', 'differs')
+        check('ch-out', np.array_equal(b, g2m(fb)) and np.array_equal(bo, g2m(fo)), 'gellmann synthesis', 'differs')
+        return
+    n = n1
+    if ch in ('R_T', 'C_T'):
+        pos = _model_ints('C20 symsel %d %s' % (n, ';'.join(map(str, range(n * n)))))
+        g = m2g(np0)
+        if ch == 'R_T' or not np.iscomplexobj(np0):
+            g = g.real
+        check('symsel', X.shape[1] == len(pos) and np.array_equal(X, g[:, pos]), str(pos), 'captured coordinate matrix differs')
+        for fx, out in ((fb, b), (fo, bo)):
+            L = fx.shape[1]
+            emb = _model_ints('C20 symemb %d %s' % (n, ';'.join(map(str, range(1, L + 1)))))   # 0 = zero block, c>0 = x[c-1]
+            tmp3 = np.zeros((fx.shape[0], len(emb)), dtype=fx.dtype)
+            for j, c in enumerate(emb):
+                if c > 0:
+                    tmp3[:, j] = fx[:, c - 1]
+            want = g2m(tmp3) if fx.shape[0] else np.zeros((0, n, n))
+            if not np.iscomplexobj(np0):
+                want = want.real
+            check('symemb', out.shape == want.shape and np.array_equal(out, want), str(emb), 'returned basis differs')
+        return
+    if ch == 'R_cT':
+        pos = _model_ints('C20 rctstack %d %s %s' % (n, ';'.join(map(str, range(n * n))), ';'.join(map(str, range(n * n, 2 * n * n)))))
+        g = m2g(np0)
+        gg = np.concatenate([g.real, g.imag], axis=1)
+        check('rctstack', X.shape[1] == len(pos) and np.array_equal(X, gg[:, pos]), str(pos), 'captured coordinate matrix differs')
+        for fx, out in ((fb, b), (fo, bo)):
+            L = fx.shape[1]
+            mo = common.run_model(['C20 rctunstack %d %s' % (n, ';'.join(map(str, range(1, L + 1))))])[0]
+            er, ei = [[int(x) for x in part.split(';')] for part in mo.split('|')]
+            tr = np.zeros((fx.shape[0], len(er))); ti = np.zeros((fx.shape[0], len(ei)))
+            for j, c in enumerate(er):
+                if c > 0: tr[:, j] = fx[:, c - 1]
+            for j, c in enumerate(ei):
+                if c > 0: ti[:, j] = fx[:, c - 1]
+            mat = g2m(tr + 1j * ti) if fx.shape[0] else np.zeros((0, n, n), dtype=np.complex128)
+            codes_r = np.arange(1, n * n + 1); codes_i = np.arange(n * n + 1, 2 * n * n + 1)
+            blk = np.array(_model_ints('C20 block %d %d %s %s' % (n, n, ints(codes_r), ints(codes_i)))).reshape(2 * n, 2 * n)
+            want = np.zeros((mat.shape[0], 2 * n, 2 * n))
+            for k in range(mat.shape[0]):
+                src = np.concatenate([mat[k].real.reshape(-1), mat[k].imag.reshape(-1)])
+                want[k] = np.sign(blk) * src[np.abs(blk) - 1]
+            # -0.0 vs 0.0: array_equal treats them as equal
+            check('rctunstack+block', out.shape == want.shape and np.array_equal(out, want), mo, 'returned basis differs')
+        return
+    if ch == 'R_c':
+        ops, impl = [], []
+        for k in range(np0.shape[0]):
+            ops.append(f'C20 rcflat {n1} {n2} {ints(np0[k].real)} {ints(np0[k].imag)}')
+            impl.append(ints(X[k]) if X.shape[1] == 2 * n1 * n2 else 'shape')
+        for fx, out in ((fb, b), (fo, bo)):
+            for k in range(fx.shape[0]):
+                ops.append(f'C20 rcblock {n1} {n2} {ints(fx[k])}')
+                impl.append(ints(out[k]) if out.shape[1:] == (2 * n1, 2 * n2) else 'shape')
+        model = common.run_model(ops)
+        common.compare(ctx, ops, impl, model)
+        return
+    check('unknown-class', False, 'one of the seven classes', ch)
+
+
+def tie_bipartite(ctx):
+    """projector, partial transpose and p-mixture of detect_real_matrix_subspace_rank_one / get_real_bipartite_numerical_range"""
+    import scipy.optimize, scipy.sparse.linalg
+    from numqi.matrix_space import _numerical_range as NR
+    rng = np.random.default_rng(ctx.np_seed + 2)
+    ops, impl = [], []
+    for dA, dB in [(1, 2), (2, 2), (2, 3), (3, 2), (3, 3)] + ([] if ctx.quick() else [(2, 4), (4, 3)]):
+        K = int(rng.integers(1, 4))
+        basis = rng.integers(-3, 4, size=(K, dA, dB)).astype(np.float64)
+        cap = {}
+
+        def fake_range(mat, kind='min', method='eigen'):
+            cap['proj'] = np.array(mat); cap['kind'] = kind
+            return 0.5
+        with patched((NR, 'get_matrix_orthogonal_basis', lambda ms, field, zero_eps=1e-10: (basis, None, 'R')),
+                     (NR, 'get_real_bipartite_numerical_range', fake_range)):
+            res = guarded(lambda: NR.detect_real_matrix_subspace_rank_one(rng.normal(size=(K, dA, dB))))
+        ops.append(f'C20 projector {K} {dA} {dB} {ints(basis)}')
+        impl.append(res if isinstance(res, str) else (ints(cap['proj']) if cap['proj'].shape == (dA, dB, dA, dB) and cap['kind'] == 'max' else 'shape/kind'))
+        # p-mixture handed to the eigen-solver, for chosen p (optimiser replaced by a fixed list of evaluation points)
+        mat = rng.integers(-3, 4, size=(dA * dB, dA * dB)); mat = (mat + mat.T).astype(np.float64).reshape(dA, dB, dA, dB)
+        ps = [0.0, 1.0, 0.25, -1.5, 0.3, 0.7310585786300049]
+        seen = []
+
+        def fake_min(hf0, *a, **kw):
+            vals = [hf0(p) for p in ps]
+            class R: pass
+            r = R(); r.fun = min(vals); r.x = ps[int(np.argmin(vals))]
+            return r
+        ev0, es0 = np.linalg.eigvalsh, scipy.sparse.linalg.eigsh
+
+        def cap_eigvalsh(m, *a, **kw):
+            seen.append(np.array(m)); return ev0(m, *a, **kw)
+
+        def cap_eigsh(m, *a, **kw):
+            seen.append(np.array(m)); return es0(m, *a, **kw)
+        for kind in ('max', 'min'):
+            seen.clear()
+            with patched((scipy.optimize, 'minimize_scalar', fake_min), (np.linalg, 'eigvalsh', cap_eigvalsh), (scipy.sparse.linalg, 'eigsh', cap_eigsh)):
+                res = guarded(lambda: NR.get_real_bipartite_numerical_range(mat, kind=kind))
+            if isinstance(res, str) or len(seen) != len(ps):
+                ctx.disagree(f'C20 mixpt-call {dA} {dB} {kind}', f'{len(ps)} eigen-solver calls', str(res) if isinstance(res, str) else f'{len(seen)} calls')
+                continue
+            # p = 0: the partial transpose itself, exactly
+            ops.append(f'C20 ptb {dA} {dB} {ints(mat)}'); impl.append(ints(seen[0]))
+            mo = common.run_model([f'C20 mixpt {dA} {dB} {fbits(p)} {ints(mat)}' for p in ps])
+            for p, got, line in zip(ps, seen, mo):
+                want = np.array([float(frac(x)) for x in line.split(';')]).reshape(got.shape)
+                ctx.count('mixpt')
+                if np.abs(got - want).max() <= 1e-12:
+                    ctx.agree('mixpt', ('mixpt', dA, dB, p, kind))
+                else:
+                    ctx.disagree(f'C20 mixpt {dA} {dB} {fbits(p)} {ints(mat)}', line, ints(got) if p in (0.0, 1.0) else repr(got.tolist()))
+    model = common.run_model(ops)
+    common.compare(ctx, ops, impl, model)
+
+
+def tie_numrange(ctx):
+    """the Hermitian part handed to the eigen-solver by get_matrix_numerical_range(_along_direction)"""
+    import scipy.linalg, scipy.sparse.linalg, scipy.optimize
+    from numqi.matrix_space import _numerical_range as NR
+    rng = np.random.default_rng(ctx.np_seed + 3)
+    eh0, es0 = scipy.linalg.eigh, scipy.sparse.linalg.eigsh
+    for n in ([2, 3, 4, 5, 6] if ctx.quick() else [2, 3, 4, 5, 6, 7, 8]):
+        A = rng.integers(-3, 4, size=(n, n)) + 1j * rng.integers(-3, 4, size=(n, n))
+        seen = []
+
+        def cap_eigh(m, *a, **kw):
+            seen.append(np.array(m)); return eh0(m, *a, **kw)
+
+        def cap_eigsh(m, *a, **kw):
+            seen.append(np.array(m)); return es0(m, *a, **kw)
+        num = 7
+        with patched((scipy.linalg, 'eigh', cap_eigh), (scipy.sparse.linalg, 'eigsh', cap_eigsh)):
+            res = guarded(lambda: NR.get_matrix_numerical_range(A, num_point=num))
+        thetas = list(np.linspace(0, 2 * np.pi, num))
+        if isinstance(res, str) or len(seen) != num:
+            ctx.disagree(f'C20 herm-call {n}', f'{num} eigen-solver calls', str(res) if isinstance(res, str) else f'{len(seen)} calls')
+            continue
+        # along a direction: three bracket evaluations at known angles, then the root
+        alpha = float(rng.uniform(0, 2 * np.pi))
+        seen2 = []
+
+        def cap2(m, *a, **kw):
+            seen2.append(np.array(m)); return es0(m, *a, **kw)
+        root = {}
+        rs0 = scipy.optimize.root_scalar
+
+        def cap_root(f, *a, **kw):
+            r = rs0(f, *a, **kw); root['n'] = len(seen2); root['x'] = r.root; return r
+        if n >= 3:  # eigsh(k=1) needs n >= 3
+            with patched((scipy.sparse.linalg, 'eigsh', cap2), (scipy.optimize, 'root_scalar', cap_root)):
+                res2 = guarded(lambda: NR.get_matrix_numerical_range_along_direction(A, alpha, kind='max'))
+            if not isinstance(res2, str):
+                am = np.mod(alpha, 2 * np.pi)
+                thetas2 = [(-am) + x for x in (-np.pi / 2, 0, np.pi / 2)] + [root['x']]
+                mats2 = seen2[:3] + [seen2[-1]]
+                thetas += thetas2; seen += mats2
+        ws = [np.exp(1j * t) / 2 for t in thetas]
+        ops = [f'C20 herm {n} {fbits(w.real)} {fbits(w.imag)} ' + ';'.join(f'{int(z.real)},{int(z.imag)}' for z in A.reshape(-1)) for w in ws]
+        mo = common.run_model(ops)
+        for op, line, got in zip(ops, mo, seen):
+            want = np.array([float(frac(x.split(',')[0])) + 1j * float(frac(x.split(',')[1])) for x in line.split(';')]).reshape(n, n)
+            ctx.count('herm')
+            if got.shape == want.shape and np.abs(got - want).max() <= 1e-12:
+                ctx.agree(op, op)
+            else:
+                ctx.disagree(op, line[:300], repr(np.asarray(got).tolist())[:300])
+
+
+def tie_decisions(ctx):
+    """both sides of every certificate threshold, with the measured quantity injected"""
+    import inspect
+    import scipy.linalg
+    from numqi.matrix_space import _numerical_range as NR, _hierarchy as H, _misc as M
+    rng = np.random.default_rng(ctx.np_seed + 4)
+    ops, impl = [], []
+    sub = np.stack([np.eye(2), np.array([[0, 1.0], [1, 0]])])
+    # --- detect_real_matrix_subspace_rank_one: upper_bound vs 1 - zero_eps
+    d = inspect.signature(NR.detect_real_matrix_subspace_rank_one).parameters['zero_eps'].default
+    ops.append('C20 certdefault rankone'); impl.append(str(Fraction(repr(d))) if Fraction(repr(d)).denominator != 1 else f'{Fraction(repr(d)).numerator}/1')
+    for eps in [d, 1e-3, 0.25, 1e-12]:
+        th = 1 - eps
+        for ub in [th * (1 - 1e-9), th * (1 + 1e-9), th - 1e-3, th + 1e-3, 1.0, 1 - 1e-16, 1 + 1e-9, 0.5, 0.0, 1.5, float(rng.uniform(0, 2))]:
+            with patched((NR, 'get_real_bipartite_numerical_range', lambda mat, kind='min', method='eigen': ub)):
+                res = guarded(lambda: NR.detect_real_matrix_subspace_rank_one(sub, zero_eps=eps) if eps != d else NR.detect_real_matrix_subspace_rank_one(sub))
+            ops.append(f'C20 cert rankone {fbits(ub)} {fbits(eps)}')
+            impl.append(res if isinstance(res, str) else str(int(not res[0])))
+    # --- LU based certificates: min |diag U| vs zero_eps (no arithmetic on either side: exact, boundary included)
+    lu0 = scipy.linalg.lu
+
+    def fake_lu(m):
+        def f(a, *args, **kw):
+            n = a.shape[0]
+            u = np.diag(np.concatenate([[m], 3 + np.arange(n - 1)]) if n else np.zeros(0))
+            sign = -1 if rng.integers(0, 2) else 1
+            return None, None, sign * u
+        return f
+    q2 = np.linalg.qr(rng.normal(size=(4, 2)))[0].T.reshape(2, 2, 2)
+    q3 = np.linalg.qr(rng.normal(size=(8, 2)))[0].T.reshape(2, 2, 2, 2)
+    for which, fn, call in (('hierarchy', H.has_rank_hierarchical_method, lambda e: H.has_rank_hierarchical_method(q2, 2, **e)),
+                            ('abc', H.is_ABC_completely_entangled_subspace, lambda e: H.is_ABC_completely_entangled_subspace(list(q3), **e)),
+                            ('lu', M.is_vector_linear_independent, lambda e: M.is_vector_linear_independent(q2, 'real', **e))):
+        d = inspect.signature(fn).parameters['zero_eps'].default
+        if which != 'lu':
+            ops.append(f'C20 certdefault {which}'); impl.append(f'{Fraction(repr(d)).numerator}/{Fraction(repr(d)).denominator}')
+        for eps in [d, 1e-3, 0.0, 1e-12]:
+            for m in [eps, eps * (1 + 1e-9), eps * (1 - 1e-9), np.nextafter(eps, 1), 0.0, 1e-16, 1.0, 2.5, float(rng.uniform(0, 2 * eps + 1e-8))]:
+                with patched((scipy.linalg, 'lu', fake_lu(m))):
+                    res = guarded(lambda: call({} if eps == d else dict(zero_eps=eps)))
+                ops.append(f'C20 cert {which} {fbits(m)} {fbits(eps)}')
+                impl.append(res if isinstance(res, str) else str(int(bool(res))))
+    # --- reduce_vector_space: number of singular values kept
+    for L in (1, 2, 4):
+        for eps in (1e-10, 1e-3):
+            S = np.sort(np.concatenate([rng.uniform(0, 2, size=L), [eps, eps * (1 + 1e-9), 0.0]]))[::-1].copy()
+            with patched((np.linalg, 'svd', lambda a, full_matrices=False: (None, S, np.eye(len(S))))):
+                res = guarded(lambda: M.reduce_vector_space(np.zeros((len(S), len(S))), eps))
+            ops.append(f'C20 kept {fbits(eps)} ' + ';'.join(fbits(s) for s in S))
+            impl.append(res if isinstance(res, str) else str(res.shape[0]))
+    model = common.run_model(ops)
+    common.compare(ctx, ops, impl, model, key=lambda op: ' '.join(op.split(' ')[1:3]) if op.split(' ')[1] in ('cert', 'certdefault') else op.split(' ')[1])
+
+
+def correspondence(ctx):
+    tie_tables(ctx)
+    tie_projection(ctx)
+    tie_structure(ctx)
+    tie_bipartite(ctx)
+    tie_numrange(ctx)
+    tie_decisions(ctx)
+
+
+# ---------------------------------------------------------------------------
+# probe: direct evaluation of the property on the real code
+# ---------------------------------------------------------------------------
+def _realify(x):
+    return np.block([[x.real, -x.imag], [x.imag, x.real]])
+
+
+def _class_generators(rng, cls, n1, n2, k_indep, n_dep):
+    """K well-conditioned independent generators of the class + dependent combinations; returns (field, array, ambient dimension)"""
+    def sym_basis(n, cplx=False):
+        out = []
+        for i in range(n):
+            for j in range(i, n):
+                e = np.zeros((n, n)); e[i, j] = 1; e[j, i] = 1
+                out.append(e)
+        return out
+    if cls in ('R', 'C(real)', 'C', 'R_c'):
+        unit = [np.eye(n1 * n2)[i].reshape(n1, n2) for i in range(n1 * n2)]
+    else:
+        unit = sym_basis(n1)
+    if cls == 'C_H':
+        n = n1
+        unit = []
+        for i in range(n):
+            for j in range(i, n):
+                e = np.zeros((n, n), dtype=complex); e[i, j] = 1; e[j, i] = 1; unit.append(e)
+                if i != j:
+                    e = np.zeros((n, n), dtype=complex); e[i, j] = 1j; e[j, i] = -1j; unit.append(e)
+    unit = np.stack(unit)
+    over_c = cls in ('C(real)', 'C', 'C_T', 'C_T(real)')
+    cplx_entries = cls in ('C', 'C_T', 'R_c', 'R_cT')
+    if cls in ('R_c', 'R_cT'):
+        unit = np.concatenate([unit, 1j * unit])       # real basis of the complex matrices / complex symmetric matrices
+    amb = unit.shape[0]
+    k = min(k_indep, amb)
+    if over_c and cplx_entries:
+        q = np.linalg.qr(rng.normal(size=(amb, amb)) + 1j * rng.normal(size=(amb, amb)))[0][:k]
+    else:
+        q = np.linalg.qr(rng.normal(size=(amb, amb)))[0][:k]
+    q = q * rng.uniform(0.5, 2, size=(k, 1))
+    gens = np.tensordot(q, unit, axes=(1, 0))
+    if n_dep:
+        c = rng.normal(size=(n_dep, k))
+        if over_c and cplx_entries:
+            c = c + 1j * rng.normal(size=(n_dep, k))
+        gens = np.concatenate([gens, np.tensordot(c, gens, axes=(1, 0))])
+        gens = gens[rng.permutation(len(gens))]
+    if cls in ('R_T', 'C_T(real)', 'R', 'C(real)'):
+        gens = np.ascontiguousarray(gens.real)
+    field = 'complex' if over_c else 'real'
+    return field, gens, amb, k
+
+
+def _rank(a, tol=1e-8):
+    if a.shape[0] == 0:
+        return 0
+    s = np.linalg.svd(a, compute_uv=False)
+    return int((s > tol).sum())
+
+
+def probe_decomposition(ctx):
+    from numqi.matrix_space import get_matrix_orthogonal_basis
+    rng = np.random.default_rng(ctx.np_seed + 10)
+    expect = {'R_T': 'R_T', 'C_T(real)': 'C_T', 'R': 'R', 'C(real)': 'C', 'C_H': 'C_H', 'R_cT': 'R_cT', 'R_c': 'R_c', 'C_T': 'C_T', 'C': 'C'}
+    dims = [2, 3, 4, 5]
+    reps = 1 if ctx.quick() else 4
+    for cls in expect:
+        for n1 in dims:
+            for n2 in ([n1] if cls not in ('R', 'C(real)', 'C', 'R_c') else ([n1, (n1 % 4) + 2])):
+                for _ in range(reps):
+                    amb0 = {'R_T': n1 * (n1 + 1) // 2, 'C_T(real)': n1 * (n1 + 1) // 2, 'C_T': n1 * (n1 + 1) // 2, 'R': n1 * n2, 'C(real)': n1 * n2, 'C': n1 * n2,
+                            'C_H': n1 * n1, 'R_cT': n1 * (n1 + 1), 'R_c': 2 * n1 * n2}[cls]
+                    k_indep = int(rng.integers(1, amb0 + 1))
+                    n_dep = int(rng.integers(0, 4))
+                    field, gens, amb, k = _class_generators(rng, cls, n1, n2, k_indep, n_dep)
+                    replay = dict(op='get_matrix_orthogonal_basis', cls=cls, field=field, shape=list(gens.shape), k_indep=k, n_dep=n_dep,
+                                  generators_re=gens.real.tolist(), generators_im=(gens.imag.tolist() if np.iscomplexobj(gens) else None))
+                    assert amb == amb0
+                    try:
+                        b, bo, ch = get_matrix_orthogonal_basis(gens, field)
+                    except Exception as e:
+                        ctx.fail('decomp-exception', f'get_matrix_orthogonal_basis raised {type(e).__name__}: {e} on a {cls} subspace {gens.shape}', replay)
+                        continue
+                    key = ('decomp', cls, n1, n2)
+                    if ch != expect[cls]:
+                        ctx.fail('decomp-class', f'space_char {ch} for a {cls} input', replay); continue
+                    # the representation in which the returned matrices live
+                    blk = ch in ('R_c', 'R_cT')
+                    inp = np.stack([_realify(x) for x in gens]) if blk else gens
+                    sz = int(np.prod(inp.shape[1:]))
+                    vb = b.reshape(b.shape[0], sz); vo = bo.reshape(bo.shape[0], sz); vi = inp.reshape(inp.shape[0], sz)
+                    real_field = field == 'real'
+                    def inner(x, y):
+                        g = x.conj() @ y.T
+                        return g.real if real_field else g
+                    def as_real(v):
+                        return np.concatenate([v.real, v.imag], axis=1) if (real_field and np.iscomplexobj(v)) else v
+                    ok = True
+                    if b.shape[0] != k:
+                        ctx.fail('decomp-rank', f'{b.shape[0]} basis elements for a subspace of dimension {k} ({cls}, {n1}x{n2})', replay); ok = False
+                    g = inner(vb, vb)
+                    c = g[0, 0].real if g.size else 1.0
+                    if g.size and (np.abs(g - c * np.eye(len(g))).max() > 1e-9 or c < 1e-3):
+                        ctx.fail('decomp-orthogonal', f'basis not mutually orthogonal with one common norm: max deviation {np.abs(g - c * np.eye(len(g))).max():.3g} ({cls}, {n1}x{n2})', replay); ok = False
+                    rb, ri, rbi = _rank(as_real(vb)), _rank(as_real(vi)), _rank(as_real(np.concatenate([vb, vi])))
+                    if not (rb == ri == rbi):
+                        ctx.fail('decomp-span', f'span(basis) != span(input): ranks {rb},{ri}, joint {rbi} ({cls}, {n1}x{n2})', replay); ok = False
+                    if vo.shape[0] and np.abs(inner(vo, vb)).max(initial=0) > 1e-9:
+                        ctx.fail('decomp-complement', f'complement not orthogonal to the basis: {np.abs(inner(vo, vb)).max():.3g} ({cls}, {n1}x{n2})', replay); ok = False
+                    if vo.shape[0] and np.abs(inner(vo, vi)).max(initial=0) > 1e-8 * max(1.0, np.abs(vi).max()):
+                        ctx.fail('decomp-complement', f'complement not orthogonal to the input: {np.abs(inner(vo, vi)).max():.3g} ({cls}, {n1}x{n2})', replay); ok = False
+                    if b.shape[0] + bo.shape[0] != amb:
+                        ctx.fail('decomp-dimension', f'{b.shape[0]} + {bo.shape[0]} != ambient dimension {amb} ({cls}, {n1}x{n2})', replay); ok = False
+                    if _rank(as_real(np.concatenate([vb, vo]))) != amb:
+                        ctx.fail('decomp-dimension', f'basis and complement together do not span the {amb}-dimensional structured space ({cls}, {n1}x{n2})', replay); ok = False
+                    if ok:
+                        ctx.probe_ok(key)
+
+
+def _planted_bipartite(rng, dA, dB, N, low_rank, cplx):
+    """orthonormal basis of an N-dimensional subspace of dA x dB matrices containing an element of rank `low_rank`"""
+    def rnd(*s):
+        return rng.normal(size=s) + (1j * rng.normal(size=s) if cplx else 0)
+    planted = rnd(dA, low_rank) @ rnd(low_rank, dB)
+    planted /= np.linalg.norm(planted)
+    gens = np.concatenate([planted[None], rnd(N - 1, dA, dB)])
+    T = rnd(N, N) + 2 * np.eye(N)
+    mixed = np.tensordot(T, gens, axes=(1, 0)).reshape(N, -1)
+    q = np.linalg.qr(mixed.T)[0].T            # rows: orthonormal basis of the same span
+    return q.reshape(N, dA, dB), planted
+
+
+def probe_planted(ctx):
+    from numqi.matrix_space import has_rank_hierarchical_method, detect_real_matrix_subspace_rank_one, is_ABC_completely_entangled_subspace, get_matrix_subspace_example
+    rng = np.random.default_rng(ctx.np_seed + 11)
+    # (dA, dB, N, rank, k)
+    cases = [(2, 2, 2, 2, 1), (2, 2, 2, 2, 2), (2, 2, 2, 2, 3), (2, 3, 3, 2, 1), (3, 3, 3, 2, 2), (3, 3, 2, 3, 1), (3, 3, 2, 3, 2), (3, 4, 3, 3, 1), (3, 3, 2, 2, 3), (4, 4, 2, 3, 1)]
+    if not ctx.quick():
+        cases += [(3, 3, 4, 2, 2), (3, 3, 3, 2, 3), (4, 4, 3, 3, 2), (4, 4, 2, 4, 1), (3, 3, 3, 3, 2), (4, 4, 4, 2, 2), (3, 4, 2, 3, 3), (5, 5, 2, 4, 1), (2, 5, 4, 2, 2)]
+    reps = 2 if ctx.quick() else 5
+    for dA, dB, N, rank, k in cases:
+        for cplx in (False, True):
+            for _ in range(reps):
+                basis, planted = _planted_bipartite(rng, dA, dB, N, rank - 1, cplx)
+                replay = dict(op='has_rank_hierarchical_method', dA=dA, dB=dB, N=N, rank=rank, hierarchy_k=k, complex=cplx,
+                              basis_re=basis.real.tolist(), basis_im=basis.imag.tolist() if cplx else None, planted_rank=rank - 1)
+                try:
+                    res = has_rank_hierarchical_method(basis, rank, hierarchy_k=k)
+                except Exception as e:
+                    ctx.fail('hierarchy-exception', f'has_rank_hierarchical_method raised {type(e).__name__}: {e}', replay); continue
+                if res:
+                    ctx.fail('hierarchy-unsound', f'has_rank_hierarchical_method(rank={rank}, k={k}) certifies a {dA}x{dB} subspace (dim {N}, {"complex" if cplx else "real"}) containing an element of rank {rank - 1}', replay)
+                else:
+                    ctx.probe_ok(('hier', dA, dB, N, rank, k, cplx))
+    # non-vacuity: the certificate is issued on the literature examples
+    for key, rank, k in ((('hierarchy-ex1', 2, 1),) if ctx.quick() else (('hierarchy-ex1', 2, 1), ('hierarchy-ex3', 2, 3))):
+        ms, field = get_matrix_subspace_example(key)
+        q = np.linalg.qr(ms.reshape(ms.shape[0], -1).T)[0].T.reshape(ms.shape)
+        ctx.count('hierarchy-positive-control-' + str(bool(has_rank_hierarchical_method(q, rank, hierarchy_k=k))))
+    # real rank-one detector
+    for dA, dB, N in [(2, 2, 2), (2, 2, 3), (2, 3, 2), (3, 3, 2), (3, 3, 4), (2, 4, 3)] + ([] if ctx.quick() else [(4, 4, 3), (3, 4, 5), (3, 5, 2), (5, 5, 3)]):
+        for _ in range(8 if ctx.quick() else 30):
+            basis, planted = _planted_bipartite(rng, dA, dB, N, 1, False)
+            replay = dict(op='detect_real_matrix_subspace_rank_one', dA=dA, dB=dB, N=N, basis=basis.tolist())
+            try:
+                tag, ub = detect_real_matrix_subspace_rank_one(basis)
+            except Exception as e:
+                ctx.fail('rankone-exception', f'detect_real_matrix_subspace_rank_one raised {type(e).__name__}: {e}', replay); continue
+            if not tag:
+                ctx.fail('rankone-unsound', f'detect_real_matrix_subspace_rank_one certifies "no rank-one element" (upper_bound={ub!r}) for a {dA}x{dB} real subspace of dimension {N} that contains one', replay)
+            else:
+                ctx.probe_ok(('rank1', dA, dB, N))
+            ctx.extra.setdefault('rankone_min_ub_minus_1', 0.0)
+            ctx.extra['rankone_min_ub_minus_1'] = min(ctx.extra['rankone_min_ub_minus_1'], float(ub) - 1.0)
+    ms = np.stack([np.eye(2), np.array([[0, -1.0], [1, 0]])])       # span_R(1, iY): arXiv 2212.12811 example 3, upper bound 1/2
+    ctx.count('rankone-positive-control-' + str(not detect_real_matrix_subspace_rank_one(ms)[0]))
+    # tripartite: planted product vector
+    for dA, dB, dC, N, k in [(2, 2, 2, 2, 1), (2, 2, 2, 3, 1), (2, 2, 2, 2, 2), (2, 2, 3, 3, 1), (2, 3, 3, 2, 2)] + ([] if ctx.quick() else [(3, 3, 3, 3, 1), (2, 2, 2, 2, 3), (2, 2, 3, 4, 2), (3, 3, 3, 2, 2)]):
+        for cplx in (False, True):
+            for _ in range(reps):
+                def rnd(*s):
+                    return rng.normal(size=s) + (1j * rng.normal(size=s) if cplx else 0)
+                prod = np.einsum('a,b,c->abc', rnd(dA), rnd(dB), rnd(dC)); prod /= np.linalg.norm(prod)
+                gens = np.concatenate([prod[None], rnd(N - 1, dA, dB, dC)])
+                T = rnd(N, N) + 2 * np.eye(N)
+                q = np.linalg.qr(np.tensordot(T, gens, axes=(1, 0)).reshape(N, -1).T)[0].T.reshape(N, dA, dB, dC)
+                replay = dict(op='is_ABC_completely_entangled_subspace', dims=[dA, dB, dC], N=N, hierarchy_k=k, complex=cplx,
+                              basis_re=q.real.tolist(), basis_im=q.imag.tolist() if cplx else None)
+                try:
+                    res = is_ABC_completely_entangled_subspace(list(q), hierarchy_k=k)
+                except Exception as e:
+                    ctx.fail('abc-exception', f'is_ABC_completely_entangled_subspace raised {type(e).__name__}: {e}', replay); continue
+                if res:
+                    ctx.fail('abc-unsound', f'is_ABC_completely_entangled_subspace(k={k}) certifies a {dA}x{dB}x{dC} subspace (dim {N}) containing a product vector', replay)
+                else:
+                    ctx.probe_ok(('abc', dA, dB, dC, N, k, cplx))
+
+
+def probe_numrange(ctx):
+    from numqi.matrix_space import get_matrix_numerical_range, get_matrix_numerical_range_along_direction
+    rng = np.random.default_rng(ctx.np_seed + 12)
+    for n in range(2, 9):
+        for _ in range(2 if ctx.quick() else 8):
+            A = rng.normal(size=(n, n)) + 1j * rng.normal(size=(n, n))
+            num = 13
+            replay = dict(op='get_matrix_numerical_range', n=n, A_re=A.real.tolist(), A_im=A.imag.tolist(), num_point=num)
+            try:
+                pts = get_matrix_numerical_range(A, num_point=num)
+            except Exception as e:
+                ctx.fail('numrange-exception', f'get_matrix_numerical_range raised {type(e).__name__}: {e}', replay); continue
+            thetas = np.linspace(0, 2 * np.pi, num)
+            ys = rng.normal(size=(400, n)) + 1j * rng.normal(size=(400, n)); ys /= np.linalg.norm(ys, axis=1, keepdims=True)
+            samples = np.einsum('ki,ij,kj->k', ys.conj(), A, ys)
+            bad = None
+            for t, z in zip(thetas, pts):
+                H = (np.exp(1j * t) * A + np.exp(-1j * t) * A.conj().T) / 2
+                h = np.linalg.eigvalsh(H)[-1]
+                val = (np.exp(1j * t) * z).real
+                if abs(val - h) > 1e-8 * max(1.0, abs(h)) or (np.exp(1j * t) * samples).real.max() > val + 1e-8:
+                    bad = (t, z, h, val); break
+            if bad:
+                ctx.fail('numrange-support', f'numerical-range point for theta={bad[0]:.6f} has Re(e^(i theta) z)={bad[3]!r} but the support function is {bad[2]!r} (n={n})', replay)
+            else:
+                ctx.probe_ok(('nr', n))
+            if n >= 3:
+                alpha = float(rng.uniform(0, 2 * np.pi))
+                replay2 = dict(op='get_matrix_numerical_range_along_direction', n=n, A_re=A.real.tolist(), A_im=A.imag.tolist(), alpha=alpha)
+                import io, contextlib
+                buf = io.StringIO()
+                try:
+                    with contextlib.redirect_stdout(buf):
+                        val, x = get_matrix_numerical_range_along_direction(A, alpha)
+                except Exception as e:
+                    ctx.count('along-direction-raised-' + type(e).__name__)   # documented limitation (bracket assertion), not part of the claim
+                    continue
+                if 'WARNING' in buf.getvalue():
+                    ctx.count('along-direction-warned'); continue
+                z = np.vdot(x, A @ x)
+                # membership in W(A): every support inequality; the point lies on the ray; the reported value is its modulus along the ray
+                tt = np.linspace(0, 2 * np.pi, 721)
+                hs = np.array([np.linalg.eigvalsh((np.exp(1j * t) * A + np.exp(-1j * t) * A.conj().T) / 2)[-1] for t in tt])
+                inside = ((np.exp(1j * tt) * z).real <= hs + 1e-8).all()
+                on_ray = abs(z - val * np.exp(1j * alpha)) <= 1e-7 * max(1.0, abs(z))
+                if not (inside and on_ray and abs(np.linalg.norm(x) - 1) < 1e-9):
+                    ctx.fail('numrange-direction', f'point returned along alpha={alpha:.6f} is not x^dagger A x on that ray inside W(A): z={z!r}, value={val!r}', replay2)
+                else:
+                    ctx.probe_ok(('nrdir', n))
+
+
+def probe(ctx):
+    probe_decomposition(ctx)
+    probe_planted(ctx)
+    probe_numrange(ctx)
+
+
+def search(ctx, hints):
+    """a proof obligation or the correspondence broke and the probe found nothing: widen the probe (thorough sizes, more repetitions)"""
+    tier = ctx.tier
+    ctx.tier = 'thorough'
+    try:
+        for s in range(3):
+            ctx.np_seed += 101
+            probe_planted(ctx)
+            if ctx.failures:
+                break
+            probe_decomposition(ctx)
+            if ctx.failures:
+                break
+        if not ctx.failures:
+            probe_numrange(ctx)
+    finally:
+        ctx.tier = tier
